@@ -32,7 +32,7 @@ def body(c):
     shapes = ["0d", "empty", "empty2d", "vec", "mat", "cube", "big", "bigmat"]
     layouts = ["C", "F", "noncontig", "transposed", "reversed", "memmap"]
     consts = dict(A=16, MaxPos=4096, DTypes=set(dtypes), Shapes=set(shapes), Layouts=set(layouts), Compressors={"none", "zlib", "gzip", "bz2", "lzma", "xz"},
-                  MmapModes={"None", "r", "r+", "c"}, Containers={"alone", "list", "dict"})
+                  MmapModes={"None", "r", "r+", "c"}, Containers={"alone", "list", "dict"}, Classes={"ndarray", "matrix", "recarray", "masked", "user"})
     path = os.path.join(common.VERIF, "out", "cfg", "AL.cfg")
     tlc.write_cfg(path, constants=consts, init="Init", next="Next", constraint="Emit")
     r = tlc.run("ArrayLayout", path, workers=1, timeout=900, heap="6g"); c.add_tlc("ArrayLayout[cases]", r)
@@ -42,11 +42,15 @@ def body(c):
     c.extra["spec_cases"] = len(cases)
     # the padding arithmetic for every start position (evaluated once by TLC as an assumption-like invariant)
     path3 = os.path.join(common.VERIF, "out", "cfg", "AL3.cfg")
-    small = dict(consts, DTypes={"float64"}, Shapes={"vec"}, Layouts={"C"}, Compressors={"none"}, MmapModes={"None"}, Containers={"alone"})
+    small = dict(consts, DTypes={"float64"}, Shapes={"vec"}, Layouts={"C"}, Compressors={"none"}, MmapModes={"None"}, Containers={"alone"}, Classes={"ndarray"})
     tlc.write_cfg(path3, constants=small, init="Init", next="Next", invariants=["Aligned"])
     c.model_check("ArrayLayout[padding for every position 0..4096]", "ArrayLayout", path3, workers=1, timeout=300)
     n = 1500 if c.quick else 20000
-    if len(cases) > n: cases = rng.sample(cases, n)
+    plain = [x for x in cases if x["class"] == "ndarray"]; subs = [x for x in cases if x["class"] != "ndarray"]
+    c.extra["spec_cases_subclasses"] = len(subs)
+    if len(plain) > n: plain = rng.sample(plain, n)
+    if len(subs) > n // 5: subs = rng.sample(subs, n // 5)
+    cases = plain + subs
     protos = [None, 2, 3, 4, 5, -1, 0, 1]          # (-1 = "highest", resolved by pickle itself)
     for k, cs in enumerate(cases): cs["protocol"] = protos[k % len(protos)]
     base = common.scratch("c19")
